@@ -36,7 +36,9 @@ func (o retOp) String() string {
 }
 
 func retMsg(topic string, variant int) *gmqtt.Message {
-	m := &gmqtt.Message{Topic: topic, Retained: true, Payload: []byte(fmt.Sprintf("p%d", variant)), QoS: byte(variant % 3)}
+	// the two variants carry the SAME payload and differ in everything else: "the last
+	// message" is not "the last payload"
+	m := &gmqtt.Message{Topic: topic, Retained: true, Payload: []byte("p"), QoS: byte(variant % 3)}
 	if variant == 2 {
 		m.ContentType = "ct"
 		m.MessageExpiry = 100
@@ -495,6 +497,9 @@ func c07WireAll(c *explore.Ctx) {
 	var events []c07Hist
 	for _, t := range topics {
 		events = append(events, c07Hist{t, "v1", 1}, c07Hist{t, "v2", 0}, c07Hist{t, "", 0})
+		if t == "a" {
+			events = append(events, c07Hist{t, "v1", 0}) // same payload as the first, another QoS
+		}
 	}
 	hists = append(hists, nil)
 	for _, e1 := range events {
